@@ -632,6 +632,13 @@ impl World {
                     let reset_id = format!("wire {}", hexd(&[&[0x72u8][..], &id.to_be_bytes()[..]].concat()));
                     let in_use = self.est[e].contains_key(&id) || self.pend[e].contains_key(&id) || self.inc[e].values().any(|v| *v == id);
                     let up = !self.view[e].exited && self.view[e].terminated_by.is_none();
+                    if op == 2 && evl.contains(&reset_id.as_str()) {
+                        // C10 / PROTOCOL.md: never a Reset in reply to a Reset (whatever the id, 0 included)
+                        let msg = format!("endpoint {} answered the Reset frame {} with a Reset of the same flow ({}): two such endpoints would bounce it for ever", NAMES[e], t[2], evl.join("; "));
+                        if !self.fails.iter().any(|f| f.0 == "C10" && f.1 == "reset-answered-with-reset") {
+                            self.fails.push(("C10".into(), "reset-answered-with-reset".into(), msg));
+                        }
+                    }
                     if op == 6 && up && !evl.is_empty() {
                         // C11: a datagram is queued for the application or dropped; nothing else happens
                         let msg = format!("endpoint {} reacted to the datagram frame {} with: {}", NAMES[e], t[2], evl.join("; "));
